@@ -31,6 +31,9 @@ pub enum Pattern {
     /// rings kept alive only by a host root (`SteelVal::as_rooted` taken by a host function of the worker),
     /// eight at a time: the root taken 8 iterations ago is released (after collections have run since it was taken)
     HostRoots,
+    /// rings referenced only from a global that is then redefined (through `eval`, 150 definitions per
+    /// top-level evaluation): the shadowed slots are recycled when a later evaluation starts
+    ShadowedGlobals,
 }
 pub const PATTERNS: &[Pattern] = &[
     Pattern::AcyclicBoxes,
@@ -48,6 +51,7 @@ pub const PATTERNS: &[Pattern] = &[
     Pattern::HashOfBoxes,
     Pattern::GrowAndDropList,
     Pattern::HostRoots,
+    Pattern::ShadowedGlobals,
 ];
 
 #[derive(Clone, Debug, Serialize, Deserialize)]
@@ -86,6 +90,7 @@ const PRELUDE: &str = r#"(struct cell (next val) #:mutable)
   (let ((slot (modulo i 8)))
     (when (vector-ref root-handles slot) (host-unroot! (vector-ref root-handles slot)))
     (vector-set! root-handles slot (host-root! (vector (box i) i (ring-boxes k i))))))
+(define (shadow-loop k i n) (if (< i n) (begin (eval `(define g-shadowed (ring-boxes ,k ,i))) (shadow-loop k (+ i 1) n)) 'done))
 (define (run pattern k n live)
   (let loop ((i 0))
     (if (= i n)
@@ -165,9 +170,26 @@ fn check_cfg(ctx: &Ctx, ws: &mut Workers, c: &Case19, counting: bool, cfg: &Conf
         if c.period > 0 {
             steps.push(Step::GcStress { n: c.period });
         }
-        let base = steps.len();
-        steps.push(Step::Eval { src: call(c.n) });
-        steps.push(Step::Eval { src: call(4 * c.n) });
+        let mut stat_steps = vec![1usize];
+        if c.pattern == Pattern::ShadowedGlobals {
+            // one top-level evaluation per 150 redefinitions (the recycler of shadowed global slots runs when an
+            // evaluation starts)
+            let mut at = 0u64;
+            for total in [c.n, 5 * c.n] {
+                while at < total {
+                    let upto = (at + 150).min(total);
+                    steps.push(Step::Eval { src: format!("(shadow-loop {} {} {})", c.k.max(1), at, upto) });
+                    at = upto;
+                }
+                steps.push(Step::Eval { src: "(stats)".into() });
+                stat_steps.push(steps.len() - 1);
+            }
+        } else {
+            steps.push(Step::Eval { src: call(c.n) });
+            stat_steps.push(steps.len() - 1);
+            steps.push(Step::Eval { src: call(4 * c.n) });
+            stat_steps.push(steps.len() - 1);
+        }
         let mut case = Case::new(steps);
         case.timeout_ms = 120_000;
         case.mem_mb = 6000;
@@ -210,7 +232,13 @@ fn check_cfg(ctx: &Ctx, ws: &mut Workers, c: &Case19, counting: bool, cfg: &Conf
             End::Exit(x) => return Err(Failure::new("c19:exit", format!("{}exit {}", shown, x))),
         }
         let mut st3 = vec![];
-        for i in [1, base, base + 1] {
+        for st in r.steps.iter() {
+            // (a failing intermediate step, e.g. a redefinition loop)
+            if st.outcome != Outcome::Ok {
+                return Err(Failure::new(format!("c19:error:{}", key), format!("{}a step ended with {:?} {}: {}", shown, st.outcome, st.err_kind, st.err_msg)));
+            }
+        }
+        for i in stat_steps.iter().copied() {
             let Some(st) = r.steps.get(i) else {
                 return Err(Failure::new(format!("c19:missing-step:{}", key), shown));
             };
@@ -231,7 +259,12 @@ fn check_cfg(ctx: &Ctx, ws: &mut Workers, c: &Case19, counting: bool, cfg: &Conf
             "(value slots, free, -, vector slots, free, -) after a full collection\n  before:            {:?}\n  after {:>9} it: {:?}\n  after {:>9} more: {:?}\nlive value slots {} -> {} -> {}, live vector slots {} -> {} -> {}",
             st3[0], c.n, st3[1], 4 * c.n, st3[2], l0v, l1v, l2v, l0c, l1c, l2c
         );
-        let slack = 64 + c.live as i64 + 2 * c.k as i64 + if c.pattern == Pattern::HostRoots { 8 * (c.k as i64 + 3) } else { 0 };
+        let slack = 64 + c.live as i64 + 2 * c.k as i64 + match c.pattern {
+                Pattern::HostRoots => 8 * (c.k as i64 + 3),
+                // up to 800 shadowed definitions wait for the recycler (its threshold cycles 100, 200, 400, 800), plus one step of 150
+                Pattern::ShadowedGlobals => 1000 * (c.k as i64 + 1),
+                _ => 0,
+            };
         if l2v > l1v + slack || l2c > l1c + slack || l1v > l0v + slack + 64 || l1c > l0c + slack + 64 {
             return Err(Failure::new(format!("c19:live-slots-grow:{}", key), format!("{}{}\nthe number of live slots grows with the iteration count (allowed slack {})", shown, table, slack)));
         }
@@ -298,11 +331,12 @@ const WEAK: &str = r#"(define strong (box 'kept))
 
 pub fn run(ctx: &Ctx, replay: Option<&str>) -> i32 {
     ctx.set_rule(
-        "15 allocation patterns with a bounded live set (0-40 boxes kept in a ring buffer): acyclic boxes / vectors / structs, \
+        "16 allocation patterns with a bounded live set (0-40 boxes kept in a ring buffer): acyclic boxes / vectors / structs, \
          rings of length 1-9 through boxes, vectors built with vector and with make-vector, mutable struct fields, a mix; \
          closures that capture themselves directly and through a box; garbage referenced only from a dropped continuation; \
          garbage produced by native threads that have been joined; hash maps of boxes; lists of boxes grown and dropped; \
-         rings held only by host roots (SteelVal::as_rooted taken by a host function, released eight iterations later). Each \
+         rings held only by host roots (SteelVal::as_rooted taken by a host function, released eight iterations later); rings referenced only from a global that is redefined again and again (150 \
+         redefinitions per top-level evaluation, so the recycler of shadowed slots gets to run). Each \
          runs n then 4n more iterations (n = 2000..40000; thorough up to 3*10^6) under natural collections or with a full \
          collection forced every 100-3000 allocations; heap statistics are read after a requested full collection before, \
          between and after; two thirds of the natural-collection cases run on a scaled heap (growth chunk 8-256 slots \
@@ -371,7 +405,10 @@ pub fn run(ctx: &Ctx, replay: Option<&str>) -> i32 {
                     // two thirds of the natural-collection cases run on the scaled heap (with at least 10^4 iterations,
                     // so that many grow-and-compact cycles happen)
                     let scaled = period == 0 && chunk > 0;
-                    Case19 { pattern, k, n: if scaled { n.max(10_000) } else { n }, period, live, chunk: if scaled { chunk } else { 0 }, limit: if scaled { limit } else { 0 } }
+                    let n = if scaled { n.max(10_000) } else { n };
+                    // (a redefinition costs a compilation: fewer iterations)
+                    let n = if pattern == Pattern::ShadowedGlobals { n.min(4_000) } else { n };
+                    Case19 { pattern, k, n, period, live, chunk: if scaled { chunk } else { 0 }, limit: if scaled { limit } else { 0 } }
                 })
         },
         ctx.n(250, 3000),
